@@ -192,6 +192,20 @@ def _random(case, ctx, m, rng):
 def _embedded(case, ctx, m, rng):
     """Trees as the estimators / mechanisms build them: growing measurement sets, structural
     zeros, model sizing of candidate cliques, out-of-clique projections."""
+    if rng.rand() < 0.5:
+        # trees built by a shipped mechanism run (model sizing of every candidate, warm-start estimates, compressed domains)
+        from .. import mechrun
+        mech = gen.pick(rng, ['aim', 'mwem', 'mst', 'adagrid'])
+        attrs, shape, rows = mechrun.gen_dataset(rng)
+        H = mechrun.harness(5)
+        before = ctx.monitors.get('jt_invariant', 0)
+        H.run(mechrun.gen_config(rng, mech, attrs, shape), attrs, shape, rows, 'record', case['seed'], case['seed'] + 1)
+        built = ctx.monitors.get('jt_invariant', 0) - before
+        ctx.units += built
+        ctx.unit_sigs.add(digest(('mech', mech, case['seed'])))
+        ctx.mon('trees_built_by_mechanisms', built)
+        ctx.tag('embedded:' + mech)
+        return
     attrs, shape = gen.domain(rng, 3, 6, sizes=(2, 3), max_cells=2000)
     dom = m.Domain(attrs, shape)
     ctx.tag('embedded')
